@@ -45,16 +45,26 @@ def reference_W(spec, X, Y):
     return Vt.T @ (f[:, None] * (U.T @ Y))
 
 
-def fit_pcovr(X, Y, mixing, k, spec, space, solver):
-    """Fit the real PCovR. Returns (estimator, exception)."""
+def fit_pcovr(X, Y, mixing, k, spec, space, solver, prefit=False, regressor_obj=None):
+    """Fit the real PCovR. Returns (estimator, exception). prefit: the estimator is a USED one
+    (fitted before on other data of the same shape)."""
     import warnings
 
     from skmatter.decomposition import PCovR
 
-    est = PCovR(mixing=mixing, n_components=k, regressor=make_regressor(spec), space=space, svd_solver=solver, random_state=0)
+    reg = regressor_obj if regressor_obj is not None else make_regressor(spec)
+    est = PCovR(mixing=mixing, n_components=k, regressor=reg, space=space, svd_solver=solver, random_state=0)
     with warnings.catch_warnings():
         warnings.simplefilter("ignore")
         try:
+            if prefit:
+                Xo = center(np.asarray(X, float)[::-1, ::-1] * 0.75 + 0.5)
+                Yo = np.asarray(Y, float)[::-1] * -0.5
+                if spec.startswith("pre"):
+                    Wo = reference_W(spec, Xo, Yo)
+                    est.fit(Xo, Xo @ Wo, W=Wo if spec == "pre+W" else None)
+                else:
+                    est.fit(Xo, Yo)
             if spec == "pre+W":
                 W = reference_W(spec, X, Y)
                 est.fit(X, np.asarray(X) @ W, W=W)
